@@ -612,8 +612,15 @@ def gen_extended(rng, kind):
     w = rng.choice([3, 5]) if meth == "census" else rng.choice([1, 3, 3, 5])
     pipe = {"matching_cost": {"matching_cost_method": meth, "window_size": w, "subpix": rng.choice([1, 1, 2])}}
     if kind == "amb":
-        pipe["cost_volume_confidence"] = {"confidence_method": "ambiguity", "eta_max": rng.choice([0.7, 0.5]),
-                                          "eta_step": rng.choice([0.01, 0.05, 0.125]), "normalization": False}
+        cm = rng.choice(["ambiguity", "risk", "interval_bounds"])
+        if cm == "interval_bounds":
+            pipe["cost_volume_confidence"] = {"confidence_method": cm, "possibility_threshold": rng.choice([0.9, 0.75, 0.5]),
+                                              "regularization": False}
+        else:
+            pipe["cost_volume_confidence"] = {"confidence_method": cm, "eta_max": rng.choice([0.7, 0.5]),
+                                              "eta_step": rng.choice([0.01, 0.05, 0.125])}
+            if cm == "ambiguity":
+                pipe["cost_volume_confidence"]["normalization"] = False
     pipe["disparity"] = {"disparity_method": "wta", "invalid_disparity": rng.choice([-9999, "NaN", -9999])}
     ref = lambda: {"refinement_method": rng.choice(["vfit", "vfit", "quadratic"])}
     med = lambda: {"filter_method": "median", "filter_size": rng.choice([3, 3, 5])}
@@ -709,7 +716,12 @@ def composed_ext_vs_run(ctx, report, gs, label, kind):
     etas = []
     if "cost_volume_confidence" in pipe:
         c = pipe["cost_volume_confidence"]
-        etas = cf.numba_etas(float(c["eta_max"]), float(c["eta_step"]))
+        payload["conf_method"] = c["confidence_method"]
+        report.count("extended_confidence_" + c["confidence_method"])
+        if c["confidence_method"] == "interval_bounds":
+            payload["conf_threshold"] = core.enc(cf.f32(float(c["possibility_threshold"])))
+        else:
+            etas = cf.numba_etas(float(c["eta_max"]), float(c["eta_step"]))
     payload["etas"] = [core.enc(e) for e in etas]
     payload["spots"] = [[rows // 2, cols // 2], [rng.randrange(rows), rng.randrange(cols)]]
     model = ctx.lean.call("C13.xrun", **payload)
@@ -746,6 +758,36 @@ def composed_ext_vs_run(ctx, report, gs, label, kind):
         if s is not None:
             cells("matching_cost", side, s["cv"], M["mc"], True)
             masks("matching_cost", side, s["mask"], M["flags"])
+        if "cost_volume_confidence" in pipe and "cost_volume_confidence" in steps and (M.get("risk") is not None or M.get("bounds") is not None):
+            # risk (max, min) / interval bounds (inf, sup): two bands; pixels whose margin is below 1e-5 are skipped
+            key, names2, tol2 = ("risk", (("max", "confidence_from_risk_max"), ("min", "confidence_from_risk_min")), 1e-5) if M.get("risk") is not None \
+                else ("bounds", (("inf", "confidence_from_interval_bounds_inf"), ("sup", "confidence_from_interval_bounds_sup")), 1e-6)
+            bands = steps["cost_volume_confidence"].get("conf", {}).get(side, {})
+            n_ok = n_small = 0
+            for k2, nm in names2:
+                band = bands.get(nm)
+                if band is None:
+                    note("cost_volume_confidence", side, "band " + nm, {"impl": "absent", "model": "present"})
+                    continue
+                for r in range(rows):
+                    for c in range(cols):
+                        mg = M[key]["margin"][r][c]
+                        if mg is not None and core.dec(mg) < Fraction(1, 100000):
+                            n_small += 1
+                            continue
+                        m = core.dec(M[key][k2][r][c])
+                        v = float(band[r, c])
+                        if (isinstance(m, float) and v != v) or (not isinstance(m, float) and v == v and abs(v - float(m)) <= tol2 * max(1.0, abs(float(m)))):
+                            n_ok += 1
+                        else:
+                            note("cost_volume_confidence", side, key + " band " + k2, {"index": [r, c], "impl": core.enc(v), "model": core.enc(m)})
+            report.count(f"extended_cells_{key}_bands", n_ok)
+            report.count(f"extended_cells_{key}_small_margin_skipped", n_small)
+            s2 = steps["cost_volume_confidence"].get(side)
+            if s2 is not None:
+                cells("cost_volume_confidence", side, s2["cv"], M["mc"], True)
+                masks("cost_volume_confidence", side, s2["mask"], M["flags"])
+                report.hit("later_stages_unchanged_by_confidence_step")
         if "cost_volume_confidence" in pipe and "cost_volume_confidence" in steps and M["amb"] is not None:
             band = steps["cost_volume_confidence"].get("conf", {}).get(side, {}).get("confidence_from_ambiguity")
             if band is None:
@@ -1015,12 +1057,12 @@ def run(ctx, report, status):
         composed_vs_run(ctx, report, gs, f"gen_seed={gs},composed_cbca", cbca=True)
     # the extended composed run (extRunR): filling after both cross-checks, repeated refinements / filters, bilateral filter,
     # ambiguity band
-    for kind, nq, nt in (("fill", 4, 50), ("repeat", 4, 50), ("bilateral", 3, 40), ("amb", 3, 40)):
+    for kind, nq, nt in (("fill", 4, 50), ("repeat", 4, 50), ("bilateral", 3, 40), ("amb", 4, 60)):
         for i in range(ctx.n(nq, nt)):
             gs = ctx.rng.randrange(1 << 30)
             composed_ext_vs_run(ctx, report, gs, f"gen_seed={gs},extended_{kind}", kind)
     # two scales: coarse chain, next-level interval grids (C15's model), fine chain on the per-pixel grids
-    for i in range(ctx.n(5, 50)):
+    for i in range(ctx.n(4, 50)):
         gs = ctx.rng.randrange(1 << 30)
         two_scale_vs_run(ctx, report, gs, f"gen_seed={gs},two_scale")
 
